@@ -3,6 +3,12 @@ import json, os
 CHECKS = {
  "C01": ("net", "5", "Seeded search over timed request/fault plans on 2-5 real GN+BTP stacks sharing a simulated ether; delivery oracle over the recorded history (exactly-once, byte-identical, metadata, order, never wrong port/station/self), bounded by the sampled plans.",
          "deterministic simulation (virtual-time multi-station ether, seeded plans, fault injection: drop/dup/delay/partition/restart/send errors) + history oracle"),
+ "C02": ("net", "5", "Every frame handed to LinkLayer.send in seeded multi-station runs (originated beacon/SHB/GBC/GAC/GUC/LS and forwarded copies) is compared octet for octet with an independent reference encoding; every delivered conformant frame (including reference-peer injections with boundary-biased field values) is decoded by the repo's decoders and compared field by field. Field spaces are sampled, not swept.",
+         "deterministic simulation (multi-station ether, reference peer injecting conformant packets) + ether conformance monitor against an independent reference codec"),
+ "C19": ("dcc", "5", "Seeded timed histories (CBR samples, packet offers, delta updates on a virtual clock) drive the real DccReactive/DccAdaptive/GateKeeper step by step against an independent reference of TS 102 687 Annex A, clause 5.4 and equations B.1/B.2.",
+         "deterministic simulation (virtual clock, seeded channel-load and packet-arrival processes) + lock-step reference model"),
+ "C20": ("net", "5", "Originated frames of every transport type with boundary-biased requested lifetimes / hop limits are judged on the wire (LT value <= request, largest representable, non-zero from 50 ms, RHL/MHL rules); injected packets with all 256 LT codes and RHL > MHL are judged at the receiver (remaining lifetime, decode, discard). The requested-lifetime space is sampled with measured reach, not exhaustively swept.",
+         "deterministic simulation (multi-station ether, reference peer injections) + ether monitor against an independent LT quantiser"),
 }
 NOT_APPLICABLE = {}
 ALL = ["C%02d" % i for i in range(1, 21)]
@@ -14,6 +20,7 @@ man = {
            "source_commits": [], "add_only": True},
  "engines": [
   {"name": "net", "path": "fsim/netsim.py", "serves_properties": ["C01", "C02", "C06", "C07", "C08", "C20"], "kind_free_text": "discrete-event virtual-time kernel + simulated ether with several real GN/BTP stacks"},
+  {"name": "dcc", "path": "fsim/props/c19.py", "serves_properties": ["C19"], "kind_free_text": "virtual-clock driver for DCC entities with an independent reference (fsim/refdcc.py)"},
  ],
  "checks": [],
  "notes": "All checks: ./run <id> --tier quick|thorough; VERIF_SEED selects the batch; exit 0 held / 1 VIOLATION / 2 harness error. See DESIGN.md.",
